@@ -38,7 +38,15 @@ func eqCoeffs(lib []int32, ref []int64, centred bool) (bool, int) {
 	return true, 0
 }
 
-func runSamp(r *ev.Recorder, c *sampCase) (string, string) {
+func runSamp(r *ev.Recorder, c *sampCase) (key, msg string) {
+	// a sampler that faults (e.g. reads past a stream buffer it sized too small) is a violation, not a crash of the check
+	if o := ev.Try(func() { key, msg = runSampInner(r, c) }); o.Panicked {
+		return c.Kind + "/panic", fmt.Sprintf("%s raised %s", c.Kind, o)
+	}
+	return key, msg
+}
+
+func runSampInner(r *ev.Recorder, c *sampCase) (string, string) {
 	r.Eval(1)
 	switch c.Kind {
 	case "rejUniform":
